@@ -21,7 +21,7 @@ def _judge(run):
     return [], bool(nt)
 
 
-P = ScenarioProperty(PROP, {"levels": (1, 3), "cap": (8, 12), "sprouty": True, "level_limit_min": 2, "root_lsc_kinds": ["DontStop", "DontStop", "DontStop", "MetaepochLimit", "Scripted"], "gsc_kinds": ["MetaepochLimit", "SingularProblemEvalLimitReached", "FitnessEvalLimitReached", "AllStopped", "NoActiveNonrootDemes", "Never", "Never", "Never"]}, lambda sc: [C07Checker(sc)], _judge, quick=1600, thorough=30000, machine={})
+P = ScenarioProperty(PROP, {"levels": (1, 3), "cap": (8, 12), "sprouty": True, "second_run": True, "level_limit_min": 2, "root_lsc_kinds": ["DontStop", "DontStop", "DontStop", "MetaepochLimit", "Scripted"], "gsc_kinds": ["MetaepochLimit", "SingularProblemEvalLimitReached", "FitnessEvalLimitReached", "AllStopped", "NoActiveNonrootDemes", "Never", "Never", "Never"]}, lambda sc: [C07Checker(sc)], _judge, quick=1600, thorough=30000, machine={})
 # second profile: three levels, plateau / constant objectives (exact fitness ties between candidates of different
 # parents), small level limits that bind - the situation in which a filter can hand a candidate to the wrong parent
 P_TIES = ScenarioProperty(
